@@ -63,7 +63,9 @@ theorem protocol_facts :
     F.retireOrder = ["putMerged", "delCurrent"] ∧
     F.openLoadsFrom = ["current", "merged"] ∧
     F.commitChecksErrors = true ∧ F.retireStopsOnPutError = true ∧
-    F.missingSkippedOnlyIfSkipUnreadable = true := by
+    F.missingSkippedOnlyIfSkipUnreadable = true ∧
+    F.loadAnySkipCond = "errors.As(err, &ae) && ae.Code() == s3.ErrCodeNoSuchKey" ∧
+    F.loadAnyReturnsOtherErrors = true := by
   decide
 
 /-- the race the fix for F15 closed, replayed on the model with the old lookup order
